@@ -252,6 +252,16 @@ def F23():
         return True, f"bootstrap(t, 1, seed=1, field='paid_loss') raises KeyError {ex}"
 
 
+def F24():
+    t = Triangle([mk(D(2020, 1, 1), D(2020, 3, 31), e, {"paid_loss": 1}, cls=CumulativeCell)
+                  for e in (D(2020, 3, 31), D(2020, 6, 30))])
+    try:
+        out = t.aggregate(period_resolution=(1, "year"), eval_resolution=(1, "year"))
+        return len(out) != 0, f"expected the empty triangle, got {len(out)} cells"
+    except IndexError:
+        return True, "aggregate raises IndexError when the evaluation grid removes every cell of a slice"
+
+
 def G5():
     cs = [mk(D(2003, 4, 1), D(2003, 6, 30), D(2003, 6, 30), {"paid_loss": 1.0}, cls=CumulativeCell),
           mk(D(2003, 7, 1), D(2003, 9, 30), D(2003, 9, 30), {"paid_loss": 2.0}, cls=CumulativeCell)]
